@@ -705,6 +705,9 @@ const EXTREME: [f64; 6] = [-0.0, 5e-324, 2.2250738585072014e-308, 1.797693134862
 // ------------------------------------------------------------------------------------------------
 // sections, one per crate; `$F` is f32 or f64
 // ------------------------------------------------------------------------------------------------
+/// solver tolerances a float type can actually reach (an f32 L-BFGS line search asked for 1e-6 can spin for ever)
+macro_rules! ftols { ($F:ty) => { if std::mem::size_of::<$F>() == 4 { [1e-3, 1e-4] } else { [1e-4, 1e-6] } }; }
+
 macro_rules! sec_nn {
     ($F:ty, $ctx:expr, $r:expr) => {{
         use linfa_nn::{distance::*, BallTree, CommonNearestNeighbour, KdTree, LinearSearch, NearestNeighbour};
@@ -948,7 +951,7 @@ macro_rules! sec_linear {
             let dsp = Dataset::new(x.clone(), yp);
             let power = *r.pick(&[0.0, 1.0, 1.5, 2.0, 3.0]) as $F;
             let mut tp = TweedieRegressor::<$F>::params().alpha(*r.pick(&[0.0, 0.1, 1.0]) as $F).power(power)
-                .max_iter(20 + r.below(80) as usize).tol(*r.pick(&[1e-4, 1e-6]) as $F).fit_intercept(rep % 2 == 0);
+                .max_iter(20 + r.below(80) as usize).tol(*r.pick(&ftols!($F)) as $F).fit_intercept(rep % 2 == 0);
             if r.chance(0.5) { tp = tp.link(if power == 0.0 { Link::Identity } else { Link::Log }); }
             if let Ok(valid) = tp.check() {
                 let dsc = dsp.clone();
@@ -982,7 +985,7 @@ macro_rules! sec_elasticnet {
             let pen = *r.pick(&[0.0, 0.05, 0.3, 1.0]) as $F;
             let l1 = *r.pick(&[0.0, 0.5, 1.0, 0.25]) as $F;
             let icpt = rep % 2 == 0;
-            let tol = *r.pick(&[1e-4, 1e-6]) as $F;
+            let tol = *r.pick(&ftols!($F)) as $F;
             if let Ok(valid) = ElasticNet::<$F>::params().penalty(pen).l1_ratio(l1).with_intercept(icpt).tolerance(tol).max_iterations(50 + r.below(500) as u32).check() {
                 let dsc = ds.clone();
                 rt(ctx, &format!("ElasticNetValidParamsBase<{},false>", fl), &valid, &tags(&[fl, "params"]), &move |p| {
@@ -1316,7 +1319,7 @@ macro_rules! sec_ica {
             let q = d.q.mapv(|v| v as $F);
             let ds = DatasetBase::from(x.clone());
             let mut p = FastIca::<$F>::params().gfunc(if rep % 2 == 0 { GFunc::Logcosh(1.0) } else { GFunc::Exp }).max_iter(50 + r.below(100) as usize)
-                .tol(*r.pick(&[1e-4, 1e-3]) as $F).random_state(r.below(1000) as usize);
+                .tol(*r.pick(&[1e-3, 1e-2]) as $F).random_state(r.below(1000) as usize);
             if rep % 2 == 1 { p = p.ncomponents(2); }
             if let Ok(valid) = p.check() {
                 let (dsc, qc) = (ds.clone(), q.clone());
